@@ -74,7 +74,8 @@ class Logic:
     def getParameterValue(self, name):
         value = self.parameters[name]
         
-        if (isinstance(value, Parameter)):
+        while (isinstance(value, Parameter)):
+            # parameters can be forwarded through several levels of the hierarchy
             value = value.obj.parameters[value.name]
         return value
     
